@@ -118,8 +118,165 @@ def hmac_consts(body, what):
     return blk, num(kl[0]), num(sets[0][0]), num(sets[1][0])
 
 
+C_KEYWORDS = {"if", "else", "for", "while", "do", "switch", "return", "sizeof", "goto", "case"}
+
+
+def func_def(src, name):
+    """(parameter list text, body text) of the *definition* of function `name` (comments stripped)."""
+    s = strip_comments(src)
+    for m in re.finditer(r"\b%s\s*\(" % re.escape(name), s):
+        i, depth = m.end(), 1
+        while i < len(s) and depth:
+            depth += {"(": 1, ")": -1}.get(s[i], 0)
+            i += 1
+        params = s[m.end():i - 1]
+        j = i
+        while j < len(s) and s[j] in " \t\r\n":
+            j += 1
+        if j < len(s) and s[j] == "{":
+            k, depth = j + 1, 1
+            while k < len(s) and depth:
+                depth += {"{": 1, "}": -1}.get(s[k], 0)
+                k += 1
+            return params, s[j + 1:k - 1]
+    raise NotFound("definition of function " + name)
+
+
+def split_top(text, sep):
+    """Split at `sep` characters that are outside every (), [] and {}."""
+    parts, cur, depth = [], "", 0
+    for ch in text:
+        if ch in "([{":
+            depth += 1
+        elif ch in ")]}":
+            depth -= 1
+        if ch == sep and depth == 0:
+            parts.append(cur)
+            cur = ""
+        else:
+            cur += ch
+    parts.append(cur)
+    return parts
+
+
+def squeeze(t):
+    return re.sub(r"\s+", "", t)
+
+
+def statements(body):
+    """Top-level statements of a function body: text up to a `;` outside all brackets; a `{..}`
+    block at the top level closes the statement it belongs to."""
+    out, cur, par, brace = [], "", 0, 0
+    for ch in body:
+        cur += ch
+        if ch == "(" or ch == "[":
+            par += 1
+        elif ch == ")" or ch == "]":
+            par -= 1
+        elif ch == "{":
+            brace += 1
+        elif ch == "}":
+            brace -= 1
+            if brace == 0 and par == 0:
+                out.append(cur.strip())
+                cur = ""
+        elif ch == ";" and par == 0 and brace == 0:
+            out.append(cur[:-1].strip())
+            cur = ""
+    if cur.strip():
+        out.append(cur.strip())
+    return [st for st in out if st]
+
+
+def classify(st):
+    """(0, callee, [args]) for a pure call statement, None for a declaration, (1, "", [text]) otherwise."""
+    m = re.match(r"^(%s)\s*\(" % ID, st)
+    if m and m.group(1) not in C_KEYWORDS:
+        i, depth = m.end(), 1
+        while i < len(st) and depth:
+            depth += {"(": 1, ")": -1}.get(st[i], 0)
+            i += 1
+        if depth == 0 and i == len(st):
+            inner = st[m.end():i - 1]
+            args = [squeeze(a) for a in split_top(inner, ",")] if inner.strip() else []
+            return (0, m.group(1), args)
+    if re.fullmatch(r"(?:%s[\s\*]+)+%s\s*(?:\[[^\]]*\]\s*)*" % (ID, ID), st) and \
+            not (set(re.findall(ID, st)) & C_KEYWORDS):
+        return None
+    return (1, "", [squeeze(st)])
+
+
+def struct_fields(hdr, name):
+    """typedef struct { T f[N]; ... } name;  ->  [(T, f, N or 1)]"""
+    s = strip_comments(hdr)
+    m = re.search(r"typedef\s+struct\s*(?:%s\s*)?\{([^{}]*)\}\s*%s\s*;" % (ID, re.escape(name)), s)
+    if not m:
+        raise NotFound("typedef struct ... " + name)
+    fields = []
+    for d in m.group(1).split(";"):
+        d = d.strip()
+        if not d:
+            continue
+        fm = re.fullmatch(r"((?:%s\s+)+)(%s)\s*(?:\[\s*%s\s*\])?" % (ID, ID, NUM), d)
+        if not fm:
+            raise NotFound("%s: field declaration not understood: %s" % (name, d))
+        fields.append((" ".join(fm.group(1).split()), fm.group(2), num(fm.group(3)) if fm.group(3) else 1))
+    return fields
+
+
+def final_functions(src, struct_names, what):
+    """Every function defined in `src` whose name contains _Final."""
+    code = strip_comments(src)
+    names = []
+    for n in re.findall(r"\b(%s)\s*\(" % ID, code):
+        if "_Final" in n and n not in names:
+            names.append(n)
+    fns = []
+    for n in names:
+        try:
+            params, body = func_def(src, n)
+        except NotFound:
+            continue
+        plist = [" ".join(p.split()) for p in split_top(params, ",")]
+        ctxs = []
+        for k, p in enumerate(plist):
+            pm = re.fullmatch(r"(%s)\s*\*\s*(?:restrict\s+)?(%s)" % (ID, ID), p)
+            if pm and pm.group(1) in struct_names:
+                ctxs.append((pm.group(1), pm.group(2), k))
+        if len(ctxs) != 1:
+            raise NotFound("%s: %s: exactly one context parameter expected in (%s)" % (what, n, params.strip()))
+        calls = [c for c in (classify(st) for st in statements(body)) if c is not None]
+        fns.append((n, ctxs[0], calls))
+    if not fns:
+        raise NotFound(what + ": no *_Final* function definitions")
+    return fns
+
+
+def coq_s(t):
+    if '"' in t or "\\" in t or any(ord(ch) < 32 or ord(ch) > 126 for ch in t):
+        raise NotFound("text not representable as a Coq string: " + t)
+    return '"%s"' % t
+
+
+def coq_wipe_data(structs, fns):
+    out = "\n(* C20: struct layouts and the statements of the *_Final* functions, in order *)\n"
+    out += "Local Open Scope string_scope.\n"
+    rows = []
+    for name, fields in structs:
+        fl = "; ".join("(%s, %s, %d%%N)" % (coq_s(t), coq_s(f), n) for t, f, n in fields)
+        rows.append("(%s, [%s])" % (coq_s(name), fl))
+    out += "Definition hash_structs : list (string * list (string * string * N)) :=\n  [%s].\n" % ";\n   ".join(rows)
+    rows = []
+    for name, (ct, cp, ci), calls in fns:
+        cl = ";\n      ".join("(%d%%N, %s, [%s])" % (k, coq_s(f), "; ".join(coq_s(a) for a in args)) for k, f, args in calls)
+        rows.append("(%s, (%s, %s, %d%%N),\n     [%s])" % (coq_s(name), coq_s(ct), coq_s(cp), ci, cl))
+    out += ("Definition hash_final_fns : list (string * (string * string * N) * list (N * string * list string)) :=\n  [%s].\n"
+            % ";\n   ".join(rows))
+    return out
+
+
 def extract(repo):
-    out = HEADER
+    out = HEADER.replace("NArith List", "NArith List String")
 
     # ---------------- alg/sha256.c ----------------
     s = read(repo, "alg/sha256.c")
@@ -272,4 +429,20 @@ def extract(repo):
     out += coq_def_N("hmac_md5_ihash_len",
                      num(one(r"MD5_Update\s*\(\s*&\s*%s\s*->\s*octx\s*,\s*%s\s*,\s*%s\s*\)" % (ID, ID, NUM),
                              func_body(s, "HMAC_MD5_Final"), "HMAC_MD5_Final: Update(octx, ihash, 16)", 1, 1)[0]))
+
+    # ---------------- C20: layouts and Final functions ----------------
+    structs, fns = [], []
+    for stem, names in (("sha256", ("SHA256_CTX", "HMAC_SHA256_CTX")), ("sha1", ("SHA1_CTX", "HMAC_SHA1_CTX")),
+                        ("md5", ("MD5_CTX", "HMAC_MD5_CTX"))):
+        hdr = read(repo, "alg/%s.h" % stem)
+        for nm in names:
+            structs.append((nm, struct_fields(hdr, nm)))
+    snames = [nm for nm, _ in structs]
+    for stem in ("sha256", "sha1", "md5"):
+        fns += final_functions(read(repo, "alg/%s.c" % stem), snames, "alg/%s.c" % stem)
+    got = [n for n, _, _ in fns]
+    for need in ("SHA256_Final", "HMAC_SHA256_Final", "SHA1_Final", "HMAC_SHA1_Final", "MD5_Final", "HMAC_MD5_Final"):
+        if need not in got:
+            raise NotFound("definition of " + need)
+    out += coq_wipe_data(structs, fns)
     return {"Repo_hash.v": out}
